@@ -120,7 +120,7 @@ def vtie(r, quick):
 # ---------------------------------------------------------------- search
 
 def search(r, quick):
-    n = 120 if quick else 2500
+    n = 100 if quick else 2500
     args = ["search", n, "--threads", max(4, min(14, NCPU - 2))]
     if not quick:
         args += ["--configs", "all"]
